@@ -31,10 +31,26 @@ type c16Index struct {
 	martItem  map[string][]int
 	martRange map[string]int
 	mapItem   map[string]*spec.MapScripts
+	expand    map[string][]string
 }
 
-func buildC16Index(rp *spec.Program, pr *spec.Printed) *c16Index {
-	ix := &c16Index{pr: pr, multi: map[string][]int{}, cmds: map[string]int{}, labels: map[string]int{}, flagLeaf: map[string]int{}, varLeaf: map[string]int{}, trLeaf: map[string]int{},
+// expandToks renders tokens with constant uses ("$NAME") replaced by their expansion.
+func expandToks(toks []string, expand map[string][]string) string {
+	var out []string
+	for _, t := range toks {
+		if strings.HasPrefix(t, "$") {
+			if e, ok := expand[t[1:]]; ok {
+				out = append(out, e...)
+				continue
+			}
+		}
+		out = append(out, t)
+	}
+	return strings.Join(out, " ")
+}
+
+func buildC16Index(rp *spec.Program, pr *spec.Printed, expand map[string][]string) *c16Index {
+	ix := &c16Index{pr: pr, expand: expand, multi: map[string][]int{}, cmds: map[string]int{}, labels: map[string]int{}, flagLeaf: map[string]int{}, varLeaf: map[string]int{}, trLeaf: map[string]int{},
 		autoVar: map[string]int{}, switches: map[string]int{}, swNode: map[int]*spec.Switch{}, textItem: map[string]int{}, moveItem: map[string][]int{}, moveRange: map[string]int{},
 		martItem: map[string][]int{}, martRange: map[string]int{}, mapItem: map[string]*spec.MapScripts{}}
 	var cond func(c spec.Cond)
@@ -53,7 +69,7 @@ func buildC16Index(rp *spec.Program, pr *spec.Printed) *c16Index {
 		case *spec.Paren:
 			cond(x.X)
 		case *spec.Leaf:
-			op := strings.Join(x.Operand, " ")
+			op := expandToks(x.Operand, expand)
 			switch x.Kind {
 			case spec.LeafFlag:
 				ix.flagLeaf[op] = -x.ID
@@ -94,7 +110,7 @@ func buildC16Index(rp *spec.Program, pr *spec.Printed) *c16Index {
 					ix.autoVar[autoVarNameOf(x.Auto, rp)] = x.Auto.ID
 					ix.switches[autoVarNameOf(x.Auto, rp)] = x.ID
 				} else {
-					ix.switches[strings.Join(x.Operand, " ")] = x.ID
+					ix.switches[expandToks(x.Operand, expand)] = x.ID
 				}
 				ix.swNode[x.ID] = x
 				for _, c := range x.Cases {
@@ -161,6 +177,110 @@ func buildC16Index(rp *spec.Program, pr *spec.Printed) *c16Index {
 	return ix
 }
 
+// c16Consts turns some flag/var/defeated operands, switch operands and case values into uses of
+// constants (defined at the top of the file, one or several tokens each), so that markers in front of
+// expanded operands are exercised. Returns the expansions.
+func c16Consts(k *h.Case, g *spec.Gen, prog *spec.Program) map[string][]string {
+	r := k.R
+	expand := map[string][]string{}
+	var defs []spec.Item
+	mk := func(toks []string) []string {
+		if len(toks) == 0 || r.IntN(3) != 0 {
+			return toks
+		}
+		for _, t := range toks {
+			if strings.HasPrefix(t, "$") || t == "(" || t == ")" || t == "," {
+				return toks
+			}
+		}
+		name := g.Name([]string{"C16_", "ÉC16_"}[r.IntN(2)])
+		val := append([]string{}, toks...)
+		use := []string{"$" + name}
+		if len(val) > 1 && r.IntN(2) == 0 {
+			// only the first token comes from the constant
+			val, use = val[:1], append([]string{"$" + name}, toks[1:]...)
+		}
+		expand[name] = val
+		defs = append(defs, &spec.Const{ID: prog.NewID(), Name: name, Value: val})
+		k.Count("constant_operands", 1)
+		return use
+	}
+	var cond func(c spec.Cond)
+	cond = func(c spec.Cond) {
+		switch x := c.(type) {
+		case *spec.And:
+			for _, y := range x.Xs {
+				cond(y)
+			}
+		case *spec.Or:
+			for _, y := range x.Xs {
+				cond(y)
+			}
+		case *spec.Not:
+			cond(x.X)
+		case *spec.Paren:
+			cond(x.X)
+		case *spec.Leaf:
+			if x.Auto == nil {
+				x.Operand = mk(x.Operand)
+			}
+		}
+	}
+	var blk func(b *spec.Block)
+	blk = func(b *spec.Block) {
+		if b == nil {
+			return
+		}
+		for _, st := range b.Stmts {
+			switch x := st.(type) {
+			case *spec.If:
+				for _, a := range x.Arms {
+					cond(a.Cond)
+					blk(a.Body)
+				}
+				blk(x.Else)
+			case *spec.While:
+				if x.Cond != nil {
+					cond(x.Cond)
+				}
+				blk(x.Body)
+			case *spec.DoWhile:
+				blk(x.Body)
+				cond(x.Cond)
+			case *spec.Switch:
+				if x.Auto == nil {
+					x.Operand = mk(x.Operand)
+				}
+				for _, c := range x.Cases {
+					if !c.Default {
+						c.Value = mk(c.Value)
+					}
+					blk(c.Body)
+				}
+			case *spec.PorySwitch:
+				for _, c := range x.Cases {
+					blk(c.Body)
+				}
+			}
+		}
+	}
+	for _, it := range prog.Items {
+		switch x := it.(type) {
+		case *spec.Script:
+			blk(x.Body)
+		case *spec.MapScripts:
+			for _, e := range x.Entries {
+				blk(e.Body)
+				for _, row := range e.Rows {
+					blk(row.Body)
+				}
+			}
+		}
+	}
+	prog.Items = append(defs, prog.Items...)
+	return expand
+}
+
 func autoVarNameOf(c *spec.Cmd, p *spec.Program) string {
 	av := p.AutoVars[c.Name]
 	if av.ArgPos >= 0 && av.ArgPos < len(c.Args) {
@@ -186,6 +306,10 @@ func runC16(ctx *h.Ctx) int {
 			if r, ok := it.(*spec.Raw); ok && k.R.IntN(2) == 0 {
 				r.CRLF = true
 			}
+		}
+		var expand map[string][]string
+		if k.Index%3 == 1 {
+			expand = c16Consts(k, g, prog)
 		}
 		rp, rerr := spec.Resolve(prog, prog.Switches)
 		pr := layoutOf(k, prog, 0.8)
@@ -234,11 +358,13 @@ func runC16(ctx *h.Ctx) int {
 		}
 		k.Count("markers_seen", int64(nMarkers))
 		// (b), (c)
-		ix := buildC16Index(rp, pr)
+		ix := buildC16Index(rp, pr, expand)
 		wantFile := strings.ReplaceAll(path, `\`, `\\`)
 		inRange := func(id int, n int) (bool, string) {
 			a, b, ok := pr.LineRange(id)
 			if !ok {
+				k.Count("marker:construct-without-recorded-range", 1)
+				k.C.Inconclusive("no source line range recorded for construct %d", id)
 				return true, "?"
 			}
 			return n >= a && n <= b, fmt.Sprintf("%d..%d", a, b)
@@ -404,7 +530,7 @@ func runC16(ctx *h.Ctx) int {
 					if sw := ix.swNode[curSwitch]; sw != nil {
 						v, _ := asm.SplitLast(nx.Args)
 						for _, c := range sw.Cases {
-							if !c.Default && strings.Join(c.Value, " ") == v {
+							if !c.Default && expandToks(c.Value, ix.expand) == v {
 								id, what = -c.ID, "case"
 							}
 						}
